@@ -1288,12 +1288,13 @@ def run(repo, chk, tier):
     other_histogram_sites(repo, chk)
     chk.info("not decided (statistical): acceptance-rejection counts and weight bound (generator/generator.py, config_loader/sample.py, applications.gen_data), "
              "CDF inversion (generator/linear_interpolation.py, interp_nd.py, breit_wigner.py), near-equal bin populations (np.percentile)")
-    from .c20_thin import check_thinning
+    from .c20_thin import check_multi_sampling, check_thinning
 
-    check_thinning(repo, chk)
+    check_multi_sampling(repo, chk)
+    try:
+        check_thinning(repo, chk)
+    except AnalysisError as e:
+        chk.info("T-thin: statement-level rule not completed (%s); multi_sampling is decided by M-sem" % e)
     from .c20_thin import check_accept_bound
 
     check_accept_bound(repo, chk)
-    from .c20_thin import check_multi_sampling
-
-    check_multi_sampling(repo, chk)
